@@ -70,6 +70,9 @@ def gen_core(rng, knobs=None):
             pol = src_policy(rng, sources)
             if rng.random() < k.get('p_auto_request', 0.3):
                 pol['auto_request'] = rng.choice([1, 2])
+            if rng.random() < k.get('p_collector', 0.2):
+                # the library's own batching subscriber (AwaitableRSocket.request_stream(limit_rate))
+                pol['collector'] = {'limit_rate': rng.choice([1, 1, 2, 2, 3, 5]), 'limit_count': rng.choice([None, None, None, 2, 3])}
             n0 = rng.choice([1, 1, 2, 3, 5, 2147483647, None])
             prog.append(['stream', ep, sp, n0, pol, True])
             inter.append({'kind': kind, 'resp_scripted': pol['src'] == 'scripted'})
@@ -81,6 +84,8 @@ def gen_core(rng, knobs=None):
             ppol = src_policy(rng, sources) if has_pub else None
             if rng.random() < k.get('p_auto_request', 0.3):
                 pol['auto_request'] = rng.choice([1, 2])
+            if rng.random() < k.get('p_collector', 0.2):
+                pol['collector'] = {'limit_rate': rng.choice([1, 1, 2, 2, 3, 5]), 'limit_count': rng.choice([None, None, None, 2, 3])}
             n0 = rng.choice([1, 2, 3, 5, 2147483647, None])
             prog.append(['channel', ep, sp, n0, pol, has_pub, ppol, True])
             inter.append({'kind': kind, 'resp_scripted': pol['src'] == 'scripted' and pol['pub'],
@@ -220,6 +225,34 @@ def gen_cut(rng, knobs=None):
     # the fault
     how = rng.choice(k.get('faults', ['eof', 'eof', 'error', 'close', 'close']))
     src = rng.choice(['c', 's'])
+    if how in ('eof', 'error') and rng.random() < k.get('p_request_race', 0.2):
+        # the last thing an endpoint reads before the loss is a REQUEST: the handler is invoked, its publisher / future is
+        # created, and the connection is gone before any of the tasks just started has run
+        ep = rng.choice(['c', 's'])
+        sp = spec(rng, big=rng.random() < 0.3)
+        kind = rng.choice(['rr', 'stream', 'stream', 'stream', 'channel', 'fnf'])
+        prog.append(['pump'])
+        if kind == 'rr':
+            prog.append(['rr', ep, sp, {'mode': rng.choice(['later', 'immediate']), 'resp': spec(rng), 'suspend': rng.choice([0, 0, 0.05])}])
+        elif kind == 'fnf':
+            prog.append(['fnf', ep, sp])
+        elif kind == 'stream':
+            pol = src_policy(rng)
+            prog.append(['stream', ep, sp, rng.choice([1, 2, 5, None]), pol, True])
+        else:
+            pol = src_policy(rng)
+            pol['pub'] = True
+            pol['sub'] = True
+            has_pub = rng.random() < 0.7
+            prog.append(['channel', ep, sp, rng.choice([1, 3, None]), pol, has_pub, src_policy(rng) if has_pub else None, True])
+        prog.append(['settle'])
+        prog.append(['deliver_nosettle', ep, None])
+        prog.append(['cut', ep, how])
+        prog.append(['settle'])
+        prog.append(['advance', 450])
+        prog.append(['settle'])
+        prog.append(['snapshot', 'final'])
+        return opts, prog
     cands = [i for i in range(n) if kinds[i] in ('rr', 'stream', 'channel')]
     if cands and how in ('eof', 'error') and rng.random() < k.get('p_terminal_race', 0.35):
         # the responder's terminal frame is the last thing its peer reads before the connection is lost: the terminal signal
